@@ -153,6 +153,6 @@ impl Area for HistArea {
                 _ => outs.push("bad-op".into()),
             }
         }
-        ExecOut { outs, fails }
+        ExecOut { outs, fails, model_lines: None }
     }
 }
